@@ -98,8 +98,10 @@ void HttpServer::serve(Socket client)
 				}
 
 				String mime = _mimetypes.get(file.extension(), "text/plain");
-				response.setHeader("Date", Date::now().toString(Date::HTTP));
-				response.setHeader("Content-Type", mime);
+				if (!response.hasHeader("Date")) // what the handler set stays, as for Cache-Control below
+					response.setHeader("Date", Date::now().toString(Date::HTTP));
+				if (!response.hasHeader("Content-Type"))
+					response.setHeader("Content-Type", mime);
 				
 				if (!response.hasHeader("Cache-Control"))
 					response.setHeader("Cache-Control", "max-age=60, public");
